@@ -45,7 +45,7 @@ def make(name, lam, sh):
 
 def configs(rng, tier):
     out = []
-    n_rand = 6 if tier == "thorough" else 2
+    n_rand = 24 if tier == "thorough" else 2
     for name in KINDS:
         cls = getattr(gn(), name)
         lams = list(LAMBDAS) if "lmbda" in cls.default_parameter else [1.0]
@@ -151,7 +151,7 @@ class Quiet:
 
 def corr_scalar(ctx, drv, rng, cfgs):
     """public API (normalize / denormalize / derivative), raw formulas and the range properties"""
-    n_pts = 40 if ctx.tier == "thorough" else 24
+    n_pts = 160 if ctx.tier == "thorough" else 24
     bad = 0
     for name, lam, sh in cfgs:
         k = KINDS[name]
@@ -242,7 +242,7 @@ def range_property_fails(name, lam, sh):
 
 def corr_loglik(ctx, drv, rng, cfgs):
     """kernel_loglikelihood / loglikelihood incl. NaN and out-of-range entries (which must be ignored)"""
-    reps = 3 if ctx.tier == "thorough" else 1
+    reps = 6 if ctx.tier == "thorough" else 1
     for name, lam, sh in cfgs:
         if abs(lam) > 3 or name == "Normalizer" and False:
             continue
@@ -468,7 +468,7 @@ def probe_loglik_one(nz, x):
 def probes_scalar(ctx, rng, cfgs):
     """round trips, monotonicity, derivative, ranges, NaN policy on the implementation against the mp reference"""
     import mpmath as mp
-    n_pts = 14 if ctx.tier == "thorough" else 7
+    n_pts = 40 if ctx.tier == "thorough" else 7
     for name, lam, sh in cfgs:
         nz = make(name, lam, sh)
         N, D, dN = mp_maps(name, lam, sh)
@@ -583,8 +583,8 @@ def probes_scalar(ctx, rng, cfgs):
 def probes_likelihood(ctx, rng):
     """log-likelihood = its definition; fit = maximiser of kernel_loglikelihood (brute force over a lmbda grid)"""
     names = ["BoxCox", "YeoJohnson", "Modulus", "Manly", "BoxCoxShift"]
-    reps = 3 if ctx.tier == "thorough" else 1
-    grid = np.linspace(-3, 3, 601 if ctx.tier == "thorough" else 241)
+    reps = 8 if ctx.tier == "thorough" else 1
+    grid = np.linspace(-3, 3, 1201 if ctx.tier == "thorough" else 241)
     for name in names:
         for rep in range(reps):
             lam0 = float(rng.uniform(-0.8, 1.8))
@@ -663,7 +663,7 @@ def pipeline_cases(rng, tier):
              ("YeoJohnson", 2.0, 0.0), ("Modulus", -0.5, 0.0), ("Modulus", 1.5, 0.0), ("Manly", 0.4, 0.0), ("Manly", -1.0, 0.0),
              ("Manly", 1e-9, 0.0)]
     cases = []
-    reps = 2 if tier == "thorough" else 1
+    reps = 8 if tier == "thorough" else 1
     for rep in range(reps):
         for nm in norms:
             for obj in ("SRF", "Krige", "Field", "CondSRF") if tier == "thorough" else ("SRF", "Krige", "Field"):
@@ -720,6 +720,14 @@ def pipeline(ctx, drv, rng):
                     ctrend = eval_on(cs["trend"], np.array(cpos), dim, "scalar", None)
                     zc = rng.normal(0, 0.3, nc)
                     cval = np.asarray(nz.denormalize(zc + cmean), dtype=float) + ctrend
+                    keep = np.isfinite(cval)        # Krige drops NaN conditions; keep the points inside the denormalize range
+                    if keep.sum() < 2:
+                        zc = np.zeros(nc) - cmean + 0.1 * rng.normal(0, 1, nc)
+                        cval = np.asarray(nz.denormalize(zc + cmean), dtype=float) + ctrend
+                        keep = np.isfinite(cval)
+                    cpos = [c[keep] for c in cpos]
+                    cmean, ctrend, zc, cval = cmean[keep], ctrend[keep], zc[keep], cval[keep]
+                    nc = int(keep.sum())
                     kr = gs.krige.Krige(model, cpos, cval, **kw)
                     # the kriging conditions are remove_trend_norm_mean of the data
                     cond = np.asarray(kr._krige_cond, dtype=float)[:nc]
@@ -813,8 +821,49 @@ def isclose_corr(ctx, drv, rng):
                               dict(kind="isclose", a=C.fhex(v), b=b), key="corr:isclose", no_input=True)
 
 
+def dedupe(ctx):
+    """one replay file per violation key (the first input found); further inputs with the same key are counted"""
+    orig = ctx.violation
+    seen = {}
+
+    def violation(stage, what, case, key=None, no_input=False):
+        if key is not None and key in seen:
+            seen[key] += 1
+            return False
+        seen[key] = 1
+        return orig(stage, what, case, key=key, no_input=no_input)
+    ctx.violation = violation
+    ctx.dup_counts = seen
+
+
+def evalfunc_corr(ctx, drv, rng):
+    """tools/misc.py eval_func with constant (vector) values: cut / padded with the last entry (model: single_val_vec)"""
+    from gstools.tools.misc import eval_func
+    for dim in (1, 2, 3):
+        for ln in range(1, dim + 2):
+            v = rng.normal(size=ln)
+            pos = rng.normal(size=(dim, 4))
+            ctx.count(("eval_func", dim, ln), hist=dict(fn="eval_func", dim=dim))
+            with Quiet():
+                a = np.asarray(eval_func(v, pos, dim, "unstructured", "vector", True), dtype=float) if ln > 1 else \
+                    np.asarray(eval_func(v, pos, dim, "unstructured", "vector", False), dtype=float)
+            m = np.asarray(drv.call("single_val_vec", v, ("n", dim)), dtype=float)
+            ok = a.shape == (dim, 4) and all(C.bit_equal(a[:, j], m) for j in range(4))
+            if not ok:
+                ctx.violation("correspondence: eval_func constant vector", "eval_func(%r, dim=%d) = %r, model %r" % (v.tolist(), dim, a.tolist(), m.tolist()),
+                              dict(kind="eval_func", value=hexl(v), dim=dim), key="corr:eval_func", no_input=True)
+            # scalar value type: a constant is broadcast
+            with Quiet():
+                b = eval_func(float(v[0]), pos, dim, "unstructured", "scalar", True)
+                c = np.asarray(eval_func(float(v[0]), pos, dim, "unstructured", "scalar", False), dtype=float)
+            if not (b == float(v[0]) and c.shape == (4,) and (c == float(v[0])).all()):
+                ctx.violation("correspondence: eval_func constant", "eval_func(%r) = %r / %r" % (float(v[0]), b, c.tolist()),
+                              dict(kind="eval_func", value=hexl(v[:1]), dim=dim), key="corr:eval_func", no_input=True)
+
+
 def run(ctx, only=None):
     rng = C.Rng(ctx.seed, "C18")
+    dedupe(ctx)
     ctx.rule = ("cases = normalizer class x lmbda (both signs, special values 0 and 2, both np.isclose windows and their edges, random) x shift "
                 "x entry point x data over the valid range incl. boundaries/NaN/inf/out-of-range; a scalar case is non-trivial when >= 4 "
                 "data are valid; pipeline cases = object (SRF/Krige/CondSRF/Field) x normalizer x mesh x mean/trend kind x value type; "
@@ -848,6 +897,7 @@ def run(ctx, only=None):
         cfgs = configs(rng, ctx.tier)
         if drv is not None:
             isclose_corr(ctx, drv, rng)
+            evalfunc_corr(ctx, drv, rng)
             nbad = corr_scalar(ctx, drv, rng, cfgs)
             corr_loglik(ctx, drv, rng, [c for c in cfgs if lam_class(c[1]) != "gt2" or c[1] <= 3])
             pipeline(ctx, drv, rng)
@@ -858,6 +908,9 @@ def run(ctx, only=None):
     finally:
         if drv:
             drv.close()
+    more = {k: v for k, v in ctx.dup_counts.items() if v > 1}
+    if more:
+        ctx.notes.append("further failing inputs with an already reported key: %s" % json.dumps({str(k): v - 1 for k, v in more.items()}))
     if (tie_broken or not proofs_ok) and not ctx.violations:
         ctx.violation("proof/tie", "proof obligations or the model/code tie of C18 no longer check: %s" % (
             tie_broken or getattr(ctx, "proof_failure", {}).get("output_tail", "")[-600:]),
